@@ -179,10 +179,7 @@ impl<'a> Resolver<'a> {
             nullable: vec![],
         };
         let aggregate = !spec.aggs.is_empty();
-        if e.skip > 0 && e.first == 0 && !self.wild && !e.unique() {
-            self.exclude("skip-without-first");
-            e.first = 50;
-        }
+        // (skip without first: repaired by 057ec14, no longer excluded)
 
         if spec.limit_var {
             if e.first > 0 {
@@ -215,10 +212,7 @@ impl<'a> Resolver<'a> {
                 if aggregate {
                     continue;
                 }
-                if f.default.is_some() && !self.wild {
-                    self.exclude("json-default-select");
-                    continue;
-                }
+                // (Json field with a default: repaired by bfec9df / 8da40ce, no longer excluded)
                 let pool = selector_pool();
                 match s.json_path {
                     Some(p) => {
@@ -442,10 +436,6 @@ impl<'a> Resolver<'a> {
             let op = Op::all()[fs.op as usize % 6];
             match &t {
                 Target::RefField { name, .. } => {
-                    if !self.wild && e.filters.iter().any(|x| matches!(x.target, Target::Json(..))) {
-                        self.exclude("json-filter-after-filter");
-                        continue;
-                    }
                     let selected_same_name = e.sels.iter().any(|s| matches!(s, RSel::Sub(x) if &x.out == name));
                     if !selected_same_name && !self.wild {
                         self.exclude("entity-filter-unselected");
@@ -459,10 +449,6 @@ impl<'a> Resolver<'a> {
                     });
                 }
                 Target::RefAlias { .. } => {
-                    if !self.wild && e.filters.iter().any(|x| matches!(x.target, Target::Json(..))) {
-                        self.exclude("json-filter-after-filter");
-                        continue;
-                    }
                     let op = if fs.op % 2 == 0 { Op::Eq } else { Op::Ne };
                     e.filters.push(RFilter {
                         target: t,
@@ -483,10 +469,6 @@ impl<'a> Resolver<'a> {
                     });
                 }
                 Target::Json(f, sel) => {
-                    if !self.wild && e.filters.iter().any(|x| !matches!(x.target, Target::Json(..) | Target::AggAlias(_))) {
-                        self.exclude("json-filter-after-filter");
-                        continue;
-                    }
                     let lits = [
                         Lit::Int(1),
                         Lit::Str("s".into()),
@@ -523,10 +505,6 @@ impl<'a> Resolver<'a> {
                     });
                 }
                 Target::Field(_) | Target::Alias(_) => {
-                    if !self.wild && e.filters.iter().any(|x| matches!(x.target, Target::Json(..))) {
-                        self.exclude("json-filter-after-filter");
-                        continue;
-                    }
                     let f = match &t {
                         Target::Field(f) => f.clone(),
                         Target::Alias(a) => e
